@@ -316,15 +316,15 @@ def run(ctx):
                         "unit-level cyclic inputs fake the N-C closeness by moving one atom; the pipeline level uses 5vav"]
     ctx.trusted += ["vlib/checks/c02.py (concretisation, residue matching, charge sums)", "vlib/gen.py", "TLC 1.8"]
     cfg = os.path.join(ctx.work, "t.cfg")
-    maxa = 4 if ctx.quick else 5
-    open(cfg, "w").write(f"SPECIFICATION Spec\nCONSTANTS\n  Cases <- AllCases\n  MaxA = {maxa}\n  Emit = FALSE\n"
+    maxa, maxs = (4, 2) if ctx.quick else (7, 3)
+    open(cfg, "w").write(f"SPECIFICATION Spec\nCONSTANTS\n  Cases <- AllCases\n  MaxA = {maxa}\n  MaxS = {maxs}\n  Emit = FALSE\n"
                          "INVARIANT TerminiOncePerEnd\nINVARIANT NoCrash\n")
     r = core.run_tlc("MC_Termini", cfg, ctx.work, timeout=1200)
     core.need_ok(r, "MC_Termini")
     ctx.add_tlc(r, "all chain configurations")
     if r.invariant:
         ctx.violation({"clause": "model:" + r.invariant}, f"the Termini model violates {r.invariant}", {"tlc": r.out[-2500:]})
-    open(cfg, "w").write(f"SPECIFICATION Spec\nCONSTANTS\n  Cases <- AllCases\n  MaxA = {maxa}\n  Emit = TRUE\nINVARIANT EmitInv\n")
+    open(cfg, "w").write(f"SPECIFICATION Spec\nCONSTANTS\n  Cases <- AllCases\n  MaxA = {maxa}\n  MaxS = {maxs}\n  Emit = TRUE\nINVARIANT EmitInv\n")
     r = core.run_tlc("MC_Termini", cfg, ctx.work, workers=8, timeout=1200)
     core.need_ok(r, "MC_Termini emit")
     ctx.add_tlc(r, "case emission")
